@@ -399,6 +399,13 @@ def spec_stream(ctx, n, tag, judge, sink, reserve):
 
 
 def oracle(ctx):
+    try:
+        _oracle(ctx)
+    finally:
+        cleanup_outside()
+
+
+def _oracle(ctx):
     tools()
     del EXECUTED[:]
     del PROJECTS[:]
@@ -454,12 +461,25 @@ def project_cases(ctx):
     return [c13proj.gen_project(r, i, gen_value, m) for i, m in enumerate(modes)]
 
 
+OUTSIDE_ROOTS = []
+
+
 def run_projects(ctx, cases, tag="proj"):
     from gen import c13proj
     root = os.path.join(ctx.tmp, tag)
     os.makedirs(root, exist_ok=True)
+    sroot = root
+    if any(c["sandbox"] != "no" for c in cases):
+        sroot, outside = outside_tmp_root(ctx, tag)
+        if outside:
+            OUTSIDE_ROOTS.append(sroot)
     t = tools()
-    return ctx.parallel(c13proj.run_project, [(c, root, ctx.repo, t["cat"], sys.executable) for c in cases])
+    return ctx.parallel(c13proj.run_project, [(c, sroot if c["sandbox"] != "no" else root, ctx.repo, t["cat"], sys.executable) for c in cases])
+
+
+def cleanup_outside():
+    while OUTSIDE_ROOTS:
+        shutil.rmtree(OUTSIDE_ROOTS.pop(), ignore_errors=True)
 
 
 def visible_host(case, home):
@@ -873,6 +893,23 @@ def judge_sandbox(ctx, case, res):
     return ok
 
 
+def outside_tmp_root(ctx, tag):
+    """A slim sandbox replaces /tmp by a private empty directory, so a project below /tmp is invisible in it with or without the
+    whiteout of the project directory.  To exercise the whiteout the sandboxed projects live outside /tmp (removed by the caller);
+    falls back to ctx.tmp when no other writable scratch directory exists."""
+    import tempfile
+    for base in (os.environ.get("BOB_VERIF_TMP_OUTSIDE"), "/var/tmp", "/dev/shm"):
+        if base and os.path.isdir(base) and os.access(base, os.W_OK) and not os.path.realpath(base).startswith("/tmp"):
+            try:
+                return tempfile.mkdtemp(prefix="bobverif-C13-%s-%d-" % (tag, os.getpid()), dir=base), True
+            except OSError:
+                pass
+    root = os.path.join(ctx.tmp, tag)
+    os.makedirs(root, exist_ok=True)
+    ctx.skip("whiteout of the project directory (no writable scratch directory outside /tmp)")
+    return root, False
+
+
 def sandbox_cases(ctx):
     r = ctx.subrng("sandbox")
     n = ctx.scale(24, 600)
@@ -981,20 +1018,23 @@ def oracle_sandbox(ctx):
         ctx.skip("sandboxed steps (time)")
         return
     cases = sandbox_cases(ctx)
-    root = os.path.join(ctx.tmp, "sbx")
-    os.makedirs(root, exist_ok=True)
-    results = ctx.parallel(run_sandbox_case, [(c, root, ctx.repo) for c in cases])
-    for i, (case, res) in enumerate(zip(cases, results)):
-        if "exception" in res or res.get("ret") != 0 or "dump_error" in res:
-            # other users of this machine create and delete entries of / while the slim sandbox mounts them: run once more, alone
-            shutil.rmtree(res.get("base", os.path.join(root, "s%d" % case["idx"])), ignore_errors=True)
-            res = results[i] = run_sandbox_case((case, root, ctx.repo))
-            ctx.count("oracle_sandbox", "retried")
-    for case, res in zip(cases, results):
-        ok = judge_sandbox(ctx, case, res)
-        ctx.case(dict(case, kind="sandbox"))
-        ctx.count("oracle_sandbox", "%s:%s" % (case["mode"], "ok" if ok else "violation"))
-        SANDBOXED.append((case, res))
+    root, outside = outside_tmp_root(ctx, "sbx")
+    try:
+        results = ctx.parallel(run_sandbox_case, [(c, root, ctx.repo) for c in cases])
+        for i, (case, res) in enumerate(zip(cases, results)):
+            if "exception" in res or res.get("ret") != 0 or "dump_error" in res:
+                # other users of this machine create and delete entries of / while the slim sandbox mounts them: run once more, alone
+                shutil.rmtree(res.get("base", os.path.join(root, "s%d" % case["idx"])), ignore_errors=True)
+                res = results[i] = run_sandbox_case((case, root, ctx.repo))
+                ctx.count("oracle_sandbox", "retried")
+        for case, res in zip(cases, results):
+            ok = judge_sandbox(ctx, case, res)
+            ctx.case(dict(case, kind="sandbox"))
+            ctx.count("oracle_sandbox", "%s:%s" % (case["mode"], "ok" if ok else "violation"))
+            SANDBOXED.append((case, res))
+    finally:
+        if outside:
+            shutil.rmtree(root, ignore_errors=True)
 
 
 # ------------------------------------------------------------------ correspondence with the Lean model
@@ -1352,8 +1392,11 @@ def replay(ctx, case):
     elif k == "project":
         c = case["case"]
         c["timeout"] = 900
-        res = run_projects(ctx, [c], "replay")[0]
-        judge_project(ctx, c, res)
+        try:
+            res = run_projects(ctx, [c], "replay")[0]
+            judge_project(ctx, c, res)
+        finally:
+            cleanup_outside()
     elif k == "fingerprint":
         c = case["case"]
         root = os.path.join(ctx.tmp, "replay")
@@ -1373,9 +1416,12 @@ def replay(ctx, case):
             print("replay: the sandbox helper does not work here")
             return
         c = case["case"]
-        root = os.path.join(ctx.tmp, "replay")
-        os.makedirs(root, exist_ok=True)
-        judge_sandbox(ctx, c, run_sandbox_case((c, root, ctx.repo)))
+        root, outside = outside_tmp_root(ctx, "replay")
+        try:
+            judge_sandbox(ctx, c, run_sandbox_case((c, root, ctx.repo)))
+        finally:
+            if outside:
+                shutil.rmtree(root, ignore_errors=True)
 
 
 MANIFEST = {
